@@ -254,6 +254,24 @@ def r08e(ctx):
                                       f"native comparison first - otherwise True < 2 natively, 2 < 'a' and 'a' < True by rank, a cycle, and "
                                       f"sorted() in DictNode.from_dict depends on the written key order again")
                         continue
+                    # bool is an int: a branch that singles booleans out before the numeric branch and ranks them elsewhere
+                    # splits a natively comparable class just as separate int / float tests would
+                    num_tag = next((x.value.elts[0].value for x in ast.walk(numeric[0]) if isinstance(x, ast.Return)
+                                    and isinstance(x.value, ast.Tuple) and x.value.elts and isinstance(x.value.elts[0], ast.Constant)), None)
+                    bool_br = [i for i in walk_no_nested(helper.node) if isinstance(i, ast.If) and isinstance(i.test, ast.Call)
+                               and call_name(i.test) == "isinstance" and "bool" in {dotted(e) for e in (
+                                   i.test.args[1].elts if isinstance(i.test.args[1], ast.Tuple) else [i.test.args[1]])}
+                               and i.lineno < numeric[0].lineno]
+                    bool_split = [i for i in bool_br if any(isinstance(x, ast.Return) and isinstance(x.value, ast.Tuple) and x.value.elts
+                                                            and isinstance(x.value.elts[0], ast.Constant) and x.value.elts[0].value != num_tag
+                                                            for b_ in i.body for x in ast.walk(b_))]
+                    if bool_split:
+                        ctx.violation("R08e", f.file, helper.short, bool_split[0], "rank classes follow native comparability",
+                                      f"{helper.short} ranks booleans apart from numbers (`{norm(bool_split[0].test, 40)}` comes first): True < 2 "
+                                      f"natively (LeafNode.__lt__ tries that first), 2 < 'a' and 'a' < True by rank - a cycle, so sorted() in "
+                                      f"DictNode.from_dict orders a mapping with a boolean, a numeric and a string key by the order they "
+                                      f"were written in")
+                        continue
                     tagged = rets and all(isinstance(x.value, ast.Tuple) and x.value.elts and isinstance(x.value.elts[0], ast.Constant)
                                           and isinstance(x.value.elts[0].value, int) for x in rets)
                     tags = [x.value.elts[0].value for x in rets] if tagged else []
